@@ -9,7 +9,7 @@
     each class has a [c19_refuted_...] witness below. *)
 From Coq Require Import String Ascii List Bool Arith ZArith Sorted.
 From Raven Require Import Base.GoStr Model.Search Model.SearchText Spec.Search Model.SearchClass
-  Proof.SearchHandler Proof.SearchTok Proof.SearchMain Proof.SearchUid Proof.SearchRefuted.
+  Proof.SearchHandler Proof.SearchTok Proof.SearchMain Proof.SearchUid Proof.SearchRefuted Proof.SearchTotal.
 Import ListNotations.
 Local Open Scope Z_scope.
 
@@ -80,6 +80,14 @@ Theorem c19_charset_dropped :
 Proof. exact charset_dropped. Qed.
 Print Assumptions c19_charset_dropped.
 
+(** ... and NO command line, text semantics or mailbox makes the evaluator
+    panic any more (the model has no run-time failure left): the reply is
+    always a result or an error. *)
+Theorem c19_never_panics : forall (T : text_ops) (parts : list str) (msgs : list msg),
+  handle_search T parts msgs <> RPanic.
+Proof. exact search_never_panics. Qed.
+Print Assumptions c19_never_panics.
+
 (** ** where raven violates the property: one witness per class *)
 Theorem c19_refuted_comma_set : exists ks mb, refutes CCommaSet ks mb.
 Proof. exact refuted_comma_set. Qed.
@@ -121,10 +129,12 @@ Print Assumptions c19_refuted_uid_search_single.
 Theorem c19_refuted_uid_search_ignores_keys : exists ks mb, refutes_uid CUidIgnoresKeys ks mb.
 Proof. exact refuted_uid_search_ignores_keys. Qed.
 Print Assumptions c19_refuted_uid_search_ignores_keys.
-Theorem c19_refuted_or_panic : exists criteria mb, search (to_msgs mb) criteria = None
-  /\ search_cmd (t_ :: S_ "SEARCH" :: fields criteria) (to_msgs mb) = RPanic.
-Proof. exact refuted_or_panic. Qed.
-Print Assumptions c19_refuted_or_panic.
+(** repaired by bb43d4f (guard before the second OR key): the former panic
+    witness is answered "no match" ... *)
+Example c19_or_panic_repaired :
+  search (to_msgs wit_mb) (S_ "OR FROM x") = Some []
+  /\ search_cmd (t_ :: S_ "SEARCH" :: fields (S_ "OR FROM x")) (to_msgs wit_mb) = ROk [].
+Proof. exact or_panic_repaired. Qed.
 
 (** non-vacuity: a program of the fragment with NOT, OR, a range, a UID set,
     a keyword, a date, a size and a string key satisfies every hypothesis of
